@@ -1,5 +1,6 @@
 """C08 - string metrics return true (weighted) edit distances in SciPy layout."""
 from .. import AnalysisBroken
+from ..eff import check_pure_params
 from ..libmodels import LIB_FACTS
 from ..rf import RFContext
 from ..rules import Equiv, canon_binders, canon_params, check_equiv, compare_function, std_rewrites, where_of
@@ -175,9 +176,23 @@ def check_cdist(r, rule):
     rep.analysed(q)
     pn = [p[0] for p in s.params]
     A, B, metric = ("param", pn[0]), ("param", pn[1]), ("param", pn[2])
-    stores = [e for e in s.events_of("setitem") if strip_all(e["obj"]) == strip_all(s.ret)]
+    from ..rules import lift_ite
+    from ..ssa import leaves
+    targets = {strip_all(leaf) for _, leaf in leaves(lift_ite(strip_all(s.ret)))}
+    stores = [e for e in s.events_of("setitem") if strip_all(e["obj"]) in targets]
+    if not stores:
+        raise AnalysisBroken(f"{q}: no store into the matrix found")
+    # every store must put metric(A[a], B[b]) at [a, b]; several stores (fast paths, mirrored writes) are each held to that
+    for e2 in stores:
+        idx2, v2 = strip(e2["index"]), strip(e2["value"])
+        ok2 = head(idx2) == "tuple" and len(idx2[1]) == 2 and head(v2) == "call" and len(v2[2]) == 2 and all(head(strip(a)) == "sub" for a in v2[2]) \
+            and strip(strip(v2[2][0])[2]) == strip(idx2[1][0]) and strip(strip(v2[2][1])[2]) == strip(idx2[1][1])
+        if len(stores) > 1:
+            rep.ob(rule, q, ok2, "every store writes metric(A[a], B[b]) at [a, b] (an arbitrary metric callable need not be symmetric)", where_of(r.P, s.func, e2.node),
+                   expected="dm[a, b] = metric(stringsA[a], stringsB[b])", found=f"dm[{show(idx2, 30)}] = {show(v2, 70)}", key=f"cdist store {show(idx2, 30)}")
     if len(stores) != 1:
-        raise AnalysisBroken(f"{q}: expected one store into the matrix, found {len(stores)}")
+        rep.require(False, f"{q}: {len(stores)} stores into the matrix; coverage of all (i, j) cannot be decided for this shape")
+        return
     e = stores[0]
     w = where_of(r.P, s.func, e.node)
     lps = [s.loops[l] for l in e.ctx.loops]
@@ -209,6 +224,8 @@ def run(r):
     rep = r.rep
     rep.explanation = "The rapidfuzz call configuration of the metric classes and the loop nests of the functional helpers were analysed on the current tree."
     rep.trust(LIB_FACTS["rapidfuzz.weights"], LIB_FACTS["rapidfuzz.cdist"], LIB_FACTS["squareform"], "DESIGN Appendix A.7 (condensed layout)")
+    # purity first: cheap, robust, and a recorded violation takes precedence over a later 'cannot decide'
+    check_pure_params(r, "C08-PURE", [L + "WeightedLevenshtein.calc_cdist_matrix", L + "WeightedLevenshtein.calc_pdist_vector", L + "Levenshtein.calc_cdist_matrix", L + "Levenshtein.calc_pdist_vector", "pyrepseq.distance.pdist", "pyrepseq.distance.cdist"])
     check_scorer(r, "C08-W", L + "WeightedLevenshtein.__init__")
     check_scorer(r, "C08-W", "pyrepseq.metric.tcr_metric.tcr_levenshtein.TcrLevenshtein.__init__")
     eq = Equiv(rewrites=std_rewrites() + [cdist_rewrite], modelled={"rapidfuzz.process.cdist", "scipy.spatial.distance.squareform"})
@@ -222,7 +239,7 @@ def run(r):
     rep.ob("C08-LV", L + "Levenshtein.__init__", okd, "the delegate is a default-constructed (unit weight) WeightedLevenshtein", where_of(r.P, s.func, s.func.node), expected="WeightedLevenshtein()", found=show(v, 60), key="delegate ctor")
     check_pdist(r, "C08-LNE")
     check_cdist(r, "C08-LNE")
-    for rule, fl in (("C08-W", 2), ("C08-CD", 1), ("C08-PV", 1), ("C08-LV", 3), ("C08-LNE", 12)):
+    for rule, fl in (("C08-PURE", 12), ("C08-W", 2), ("C08-CD", 1), ("C08-PV", 1), ("C08-LV", 3), ("C08-LNE", 12)):
         rep.floor(rule, fl)
 
 
